@@ -89,6 +89,7 @@ func (w *WorkerPool) Submit(workerFunc func(), optStackTrace ...string) {
 		return
 	}
 
+	verifSubmitWindow(w)
 	w.increasePendingTasks()
 
 	w.Queue.Push(newTask(workerFunc, w.decreasePendingTasks, lo.First(optStackTrace)))
